@@ -85,6 +85,9 @@ def solver_case(rep, spec, index):
     if not sane:
         rep.count("solver_numerical_breakdown_skipped")  # see C06: gamma outside 1e-8..1e8 (shipped UNIQUAC sets outside their range)
         return
+    if fc.mode not in ("V", "P0") and 0 <= a["y"] <= 1 and not (c02.lipschitz(fc, a["y"], fc.p1.value, fc.p2.value, fc.precision) < 0.9):
+        rep.count("solver_non_contractive_map_skipped")
+        return
     # sensitivity of the fluxes to the permeate composition (iteration may stop one step apart)
     j = a["j"]
     y = j[0] / (j[0] + j[1])
@@ -278,6 +281,9 @@ def process_case(rep, spec, index, kinds):
     rep.require("process reports feed compositions as mass fractions", all(x.type == "weight" for x in b.feed_compositions), case)
     if proc.runaway(a, sc.m0):
         rep.count("process_runaway_trajectory_skipped")
+        return
+    if proc.non_contractive(sc, a):
+        rep.count("process_non_contractive_map_skipped")
         return
     bad = None
     n = len(a.time)
